@@ -792,10 +792,6 @@ class Compiler:
             self._patch_jump(try_start)
             rethrow_handler = None
             if node.handler:
-                if node.finalizer:
-                    # A throw from the catch block still has to run finally
-                    rethrow_handler = self._emit_jump(OpCode.TRY_START)
-                    try_ctx.handler_active = True
                 self._emit(OpCode.CATCH)
                 # Store exception in catch variable
                 name = node.handler.param.name
@@ -803,6 +799,12 @@ class Compiler:
                 slot = self._get_local(name)
                 self._emit(OpCode.STORE_LOCAL, slot)
                 self._emit(OpCode.POP)
+                if node.finalizer:
+                    # A throw from the catch block still has to run finally
+                    # (installed once the caught value is off the operand
+                    # stack, so the handler records the statement's depth)
+                    rethrow_handler = self._emit_jump(OpCode.TRY_START)
+                    try_ctx.handler_active = True
                 self._compile_statement(node.handler.body)
                 if node.finalizer:
                     self._emit(OpCode.TRY_END)
